@@ -33,6 +33,19 @@ def douglas_case(case):
     d, mask, n_cuts, temperature, seed = case[:5]
     batch_size = case[5] if len(case) > 5 else None
     model, X = _fit(d, mask, n_cuts, temperature, seed, batch_size=batch_size)
+    if temperature == 1.0:
+        # event: a refit of the same object is refused (a mask of the wrong length, non-finite data); the configuration is then put back:
+        # the model it still exposes must be the one it was (masked features inert, leaves and cut points on the used features, ...)
+        keep = model.get_params(deep=False)
+        Xbad = X.copy()
+        Xbad[0, 0] = np.inf
+        for attempt_ in ((lambda: model.set_params(feature_mask=np.array([True] * (d + 1))).fit(X)),
+                         (lambda: model.set_params(feature_mask=np.array(([False, True] * d)[:d], dtype=bool) if d > 1 else None).fit(Xbad))):
+            try:
+                attempt_()
+            except Exception:  # noqa
+                pass
+        model.set_params(**keep)
     used = list(range(d)) if mask is None else [i for i in range(d) if mask[i]]
     where = dict(d=d, mask=None if mask is None else list(map(int, mask)), n_cuts=n_cuts, temperature=temperature, batch_size=batch_size)
     v = []
